@@ -420,7 +420,12 @@ fn serialise_router_advertisement(a: &RtrAdvertisement) -> Vec<u8> {
                 v.serialise(u32::try_from(prefix.valid.as_secs()).unwrap_or(u32::MAX));
                 v.serialise(u32::try_from(prefix.preferred.as_secs()).unwrap_or(u32::MAX));
                 v.serialise(0_u32);
-                v.serialise(&prefix.prefix);
+                /* Bits beyond the prefix length must be zero (RFC 4861 section 4.6.2) */
+                let mask = !u128::MAX
+                    .checked_shr(prefix.prefixlen.into())
+                    .unwrap_or(0);
+                let network = std::net::Ipv6Addr::from(u128::from(prefix.prefix) & mask);
+                v.serialise(&network);
             }
             NDOptionValue::RecursiveDnsServers((lifetime, servers)) => {
                 use std::convert::TryFrom as _;
